@@ -254,6 +254,43 @@ example : survivors (fun _ => true) ⟨⟨[]⟩, {}, wowsOld, {}⟩ {}
     = [⟨0x99, 0, [], 0⟩, ⟨0x98, 0, [], 0⟩] := by
   decide +kernel
 
+/-! ### runs of failing packets -/
+
+/-- the failures recorded for `n` copies of a packet that fails with `e`, starting at index `i` -/
+def runFailures (i n : Nat) (e : Err) : List (Nat × Err) := (List.range n).map (fun k => (i + k, e))
+
+/-- **A run of failing packets of any length is skipped one by one**: `n` copies of a packet that
+fails without changing the world are each recorded as failed, the world stays as it was, and
+playing continues with whatever follows — there is no count after which lenient mode gives up. -/
+theorem lenient_run_of_failures (np : NetPacket) (e : Err) (rest : List NetPacket) :
+    ∀ (n : Nat) (w : World) (i : Nat) (failed : List (Nat × Err)),
+    (stepNet jsonOk cfg w np).err = some e → (stepNet jsonOk cfg w np).world = w →
+    playPackets jsonOk cfg false w i (List.replicate n np ++ rest) failed =
+      playPackets jsonOk cfg false w (i + n) rest (failed ++ runFailures i n e) := by
+  intro n
+  induction n with
+  | zero => intro w i failed _ _; simp [runFailures]
+  | succ n ih =>
+    intro w i failed he hw
+    rw [List.replicate_succ, List.cons_append]
+    have step : playPackets jsonOk cfg false w i (np :: (List.replicate n np ++ rest)) failed =
+        playPackets jsonOk cfg false w (i + 1) (List.replicate n np ++ rest) (failed ++ [(i, e)]) := by
+      conv => lhs; unfold playPackets
+      simp only [he, hw, Bool.false_eq_true, if_false]
+    rw [step, ih w (i + 1) (failed ++ [(i, e)]) he hw]
+    have hidx : i + 1 + n = i + (n + 1) := by omega
+    have hfail : failed ++ [(i, e)] ++ runFailures (i + 1) n e = failed ++ runFailures i (n + 1) e := by
+      simp only [runFailures, List.append_assoc]
+      congr 1
+      rw [List.range_succ_eq_map, List.map_cons, List.map_map]
+      simp only [Nat.add_zero, List.singleton_append, List.cons.injEq, true_and]
+      apply List.map_congr_left
+      intro k _
+      simp only [Function.comp]
+      congr 1
+      omega
+    rw [hidx, hfail]
+
 /-! ### the top of the pipeline: `ReplayParser.get_info` (model: `ReplayModel/Pipeline.lean`) -/
 
 /-- **The top-level call returns a result object in lenient mode** whenever the container
